@@ -206,11 +206,11 @@ inductive Outcome where
   | noBaud
 deriving DecidableEq, Repr
 
-/-- **the loop as it is in the code** (finding F9): for every (baud, offset) pair, ALL fitting modes of that baud
+/-- **the loop as it was before the fix of finding F9** (/repo 5d202380; kept as the counterexample witness): for every (baud, offset) pair, ALL fitting modes of that baud
 rate are judged, in key order, on the propagation made with that pair's offset; the first that passes is returned.
 `feas prop m` = "mode `m` passes on the propagation `prop`"; `last` = (`last_explored_mode`, propagation left on
 the path). -/
-def exploreCurrent (feas : (Int × Int) → Mode → Bool) (modes : List Mode) (spacing : Int) :
+def exploreOld (feas : (Int × Int) → Mode → Bool) (modes : List Mode) (spacing : Int) :
     List (Int × Int) → Option (Mode × (Int × Int)) → Outcome
   | [], none => .noBaud
   | [], some (l, p) => .noFeasibleMode l p
@@ -218,11 +218,11 @@ def exploreCurrent (feas : (Int × Int) → Mode → Bool) (modes : List Mode) (
     let ms := modesOf modes spacing pr.1
     match ms.find? (feas pr) with
     | some m => .served m pr
-    | none => exploreCurrent feas modes spacing rest
+    | none => exploreOld feas modes spacing rest
                 (match ms.getLast? with | some l => some (l, pr) | none => last)
 
-def selectModeCurrent (feas : (Int × Int) → Mode → Bool) (modes : List Mode) (spacing : Int) : Outcome :=
-  exploreCurrent feas modes spacing (pairsDesc modes spacing) none
+def selectModeOld (feas : (Int × Int) → Mode → Bool) (modes : List Mode) (spacing : Int) : Outcome :=
+  exploreOld feas modes spacing (pairsDesc modes spacing) none
 
 /-- the propagation a mode must be judged on: its own baud rate and its own equalisation offset -/
 def own (m : Mode) : Int × Int := (m.baud, m.offset)
